@@ -23,6 +23,8 @@ def run(ctx):
     engine2_common.run_c17_records(ctx)
     # update / re-lock of holds parked in the millisecond tables: nothing may be left behind (monitors only)
     ms_common.run_ms_update(ctx, ["C17:"])
+    # millisecond waits / holds (incl. requests granted while parked): no key record left once everything has ended
+    ms_common.run_ms(ctx, "both-c17")
     ctx.assumptions.append("counters and census: M-ENGINE stage 1; KeyCount, lock-record / key-record reference counts and reclamation: M-ENGINE stage 2 (records with refCount, "
                            "tombstones, lazy popping), tied by the E-seq differential (snapshots include refCounts and KeyCount) and cross-checked against stage 1 through abs on every "
                            "operation; the drain theorem's hypothesis is 'queues empty' (stronger than 'no live hold or waiter'): that tombstones cannot outlive live entries is "
